@@ -624,3 +624,9 @@ pub mod tests {
         assert_eq!(h4, TABLE_V[prover.1][3]);
     }
 }
+
+#[cfg(kani)]
+#[allow(warnings, clippy::all, clippy::pedantic)]
+pub(crate) mod verif_kani {
+    include!(concat!(env!("IPA_VERIF_DIR"), "/harness/dzkp_field.rs"));
+}
